@@ -15,6 +15,8 @@ import NeoModel.Proofs.CompileFault
 import NeoModel.Proofs.CompileLayout
 import NeoModel.Proofs.CompileOverflow
 import NeoModel.Proofs.CompileOperands
+import NeoModel.Proofs.CompileDebug
+import NeoModel.Proofs.CompileOpTable
 namespace NeoModel.C14
 open NeoModel.MiniVm NeoModel.MiniVm.Asm NeoModel.MiniGo NeoModel.Compile NeoModel.CompileProofs
 
@@ -399,6 +401,18 @@ theorem encoding_round_trip (long : Bool) (op : Op Int) (rest : Bytes) (h : encO
 example : Byte.decode (Byte.encode true (.jmpCmp .ge (-70000)) ++ [0x40]) = some (.jmpCmp .ge (-70000), 5) :=
   encoding_round_trip true _ _ (by decide)
 
+/-- **The model's encoding against /repo's opcode table** (regenerated on every run): for every instruction and both
+    operand forms, the first byte of `Byte.encode` is the opcode pkg/vm/opcode gives the instruction's mnemonic, the
+    table row has no length prefix and its operand size is the number of bytes the model writes after the opcode. A
+    renumbered opcode or a changed operand width in /repo makes this theorem fail instead of silently leaving the
+    byte model (and `encoding_round_trip`, `compile_bytes_correct`) about a different instruction set. -/
+theorem encoding_agrees_opcode_table (long : Bool) (op : Op Int) :
+    agreesB (mnemonic long op) (Byte.encode long op) = true :=
+  encode_agrees_table long op
+
+example : mnemonic true (.jmpCmp .ge 7) = "JMPGE_L" ∧ rowOf "JMPGE_L" = some (0x2f, "JMPGE_L", 0, 4, 2) ∧
+    mnemonic false (.ldloc 9) = "LDLOC" ∧ rowOf "LDLOC" = some (0x6f, "LDLOC", 0, 1, 2) := by decide +kernel
+
 /-- every jump and call target of the compiler's output is marked, for every program whose `fallthrough`s have a
     next clause (`FtOK`, implied by `Allowed`): targets are the statement's own marks, function labels, label 0, or
     the end / post marks of enclosing `for` / `switch` statements — all of which exist in `compProg P`. -/
@@ -443,6 +457,28 @@ theorem compile_bytes_fault (P : Prog) (hall : ∀ d ∈ P, Allowed [] d.body) (
     ∃ off m, labelOffset (compProg P) (fnLabel P f) = some off ∧
       Byte.run (compile P) m { pc := off, stack := vs ++ rest, locals := [], args := [], frames := [] } = .fault :=
   compile_bytes_fault_partial P hall (layoutOK_compProg P hall hs hlen) f vs rest fuel hrun hdep
+
+/-- the debug-info / manifest clause for parameter counts ("name the same methods, offsets and parameter counts that
+    the bytecode implements"): the entry the model's `debugInfo` (mirrored addMethodsToDebugInfo) lists for method
+    `i` carries the Go parameter count, and the script at the listed offset begins with `INITSLOT <locals> <that
+    count>`: the method takes exactly that many arguments from the evaluation stack. -/
+theorem debug_params_correct (P : Prog) (hall : ∀ d ∈ P, Allowed [] d.body) (hs : ∀ d ∈ P, SmallFn d)
+    (hlen : longLen (compProg P) < 2 ^ 31) (i : Nat) (d : FuncDecl) (hi : P[i]? = some d) (hpar : d.params ≠ []) :
+    ∃ off l sz, (debugInfo P)[i]? = some (d.name, some off, d.params.length) ∧
+      Byte.decode ((compile P).drop off) = some (.initSlot l d.params.length, sz) := by
+  obtain ⟨off, l, sz, ho, hd⟩ := initslot_at_offset P (fun d hd => allowed_wfS d.body [] (hall d hd))
+    (layoutOK_compProg P hall hs hlen) i d hi hpar
+  exact ⟨off, l, sz, by rw [debugInfo_get P i d hi, ho], hd⟩
+
+/-! non-vacuity: `sum(n)` of the example program: listed at offset 17 with one parameter; byte 17.. is INITSLOT 2,1 -/
+example : ∃ off l sz, (debugInfo exP)[1]? = some ("sum", some off, 1) ∧
+    Byte.decode ((compile exP).drop off) = some (.initSlot l 1, sz) := by
+  have h := debug_params_correct exP exP_allowed (by
+      intro d hd
+      simp only [exP, List.mem_cons, List.mem_nil_iff, or_false] at hd
+      rcases hd with rfl | rfl <;> refine ⟨by decide, by decide, ?_⟩ <;> simp [exFact, exSum, LitsS, LitsE, LitsO])
+    (by decide) 1 exSum rfl (by simp [exSum])
+  simpa [exSum] using h
 
 /-! ## Stage 5: `switch` (with / without tag, `default` last, `fallthrough`), Go labels, `break L` / `continue L`
 
